@@ -35,6 +35,7 @@ class Color(betterproto.Enum):
     NEG = -1
     BIG = 2147483647
     ROUGE = 1  # alias of RED
+    MIN = -2147483648
 
 
 @dataclass(eq=False, repr=False)
@@ -494,7 +495,7 @@ SCHEMAS = {
 }
 
 ENUMS = {
-    "Color": [("ZERO", 0), ("RED", 1), ("NEG", -1), ("BIG", 2147483647), ("ROUGE", 1)]
+    "Color": [("ZERO", 0), ("RED", 1), ("NEG", -1), ("BIG", 2147483647), ("ROUGE", 1), ("MIN", -2147483648)]
 }
 
 
@@ -949,6 +950,9 @@ def _enum_pool():
         Val(lambda: 7, "7"),
         Val(lambda: Color.try_value(7), "Color.try_value(7)"),
         Val(lambda: Color.try_value(-5), "Color.try_value(-5)"),
+        Val(lambda: Color.MIN, "Color.MIN"),
+        Val(lambda: Color.try_value(-2147483647), "Color.try_value(-2147483647)"),
+        Val(lambda: Color.try_value(2147483646), "Color.try_value(2147483646)"),
     ]
 
 
